@@ -290,6 +290,12 @@ impl Shard {
                         m.known(&k);
                     }
                     m.label(format!("build:{}", build.name()));
+                    // build-specific labels (prefixed with '@') are kept from every build
+                    for (l, n) in o.labels {
+                        if l.starts_with('@') {
+                            m.labels.push((l, n));
+                        }
+                    }
                     if m.desc.is_empty() {
                         m.desc = o.desc;
                     }
